@@ -92,7 +92,8 @@ type Run struct {
 	disk         *DiskTracker
 	phase        string
 	wms          map[string]*wmState
-	maxDiscardTs uint64 // highest discard watermark any compaction used so far
+	curRec       map[int64]*CommitRec // commit whose entries are currently being reported, per goroutine
+	maxDiscardTs uint64               // highest discard watermark any compaction used so far
 	compactions  int
 }
 
@@ -216,14 +217,15 @@ func (r *Run) onEvent(gid int64, kind string, a, b uint64, key, val []byte) {
 			}
 			r.lastAllocTs = a
 		}
-		if cl == nil || cl.cur == nil {
-			return // internal commit (e.g. sequence/merge) not tracked here
+		rec := &CommitRec{Client: -1, Ts: a, ReadTs: b, TsStep: r.e.Steps}
+		if cl != nil && cl.cur != nil {
+			rec.Client, rec.OpIdx = cl.id, cl.cur.opIdx
+			cl.cur.rec = rec
 		}
-		rec := &CommitRec{Client: cl.id, OpIdx: cl.cur.opIdx, Ts: a, ReadTs: cl.cur.readTs, Writes: cl.cur.writes, TsStep: r.e.Steps}
-		cl.cur.rec = rec
 		r.mu.Lock()
 		r.model.AddCommit(rec)
 		r.inFlight[a] = true
+		r.curRec[gid] = rec
 		r.mu.Unlock()
 	case "conflict":
 		r.mu.Lock()
@@ -345,6 +347,23 @@ func (r *Run) wm(name string) *wmState {
 		r.wms[name] = w
 	}
 	return w
+}
+
+// onEntry receives every entry of a commit right after its timestamp was
+// allocated (vhook.Entry): this is what the model is built from.
+func (r *Run) onEntry(kind string, key, val []byte, version uint64, meta, um byte, exp uint64) {
+	gid := goid()
+	r.mu.Lock()
+	defer r.mu.Unlock()
+	rec := r.curRec[gid]
+	if rec == nil {
+		return
+	}
+	w := WriteRec{Key: string(key), Val: append([]byte{}, val...), UM: um, Exp: exp, Del: meta&1 != 0, Disc: meta&4 != 0, Merge: meta&8 != 0, Ver: version}
+	if w.Del {
+		w.Val = nil
+	}
+	r.model.AddWrite(rec, w)
 }
 
 func (r *Run) key(i int) []byte { return r.c.KeyBytes(i) }
@@ -655,6 +674,9 @@ func (r *Run) opCommit(cl *clientState, idx int, op *Op) {
 				r.violate([]string{"C03"}, "ack-without-ts", "c%d commit returned nil but no commit timestamp was allocated", cl.id)
 				return
 			}
+			if d := diffWrites(pc.writes, pc.rec.Writes); d != "" {
+				r.violate([]string{"C03", "C06"}, "commit-entries-differ", "c%d commit ts=%d: the entries handed to the write path differ from what the transaction set: %s", cl.id, pc.rec.Ts, d)
+			}
 			if witness := witnessBelow(pc.rec.Ts); witness != "" {
 				r.violate([]string{"C02"}, "missed-conflict", "c%d (readTs=%d, commitTs=%d, reads=%v) committed although %s after its read timestamp", cl.id, ts.readTs, pc.rec.Ts, keysOf(ts.reads), witness)
 			}
@@ -691,6 +713,23 @@ func (r *Run) opCommit(cl *clientState, idx int, op *Op) {
 	err := ts.txn.Commit()
 	cl.cur = nil
 	finish(err)
+}
+
+func diffWrites(want, got []WriteRec) string {
+	idx := map[string]WriteRec{}
+	for _, w := range got {
+		idx[w.Key] = w
+	}
+	if len(idx) != len(want) {
+		return fmt.Sprintf("%d keys set, %d entries committed", len(want), len(idx))
+	}
+	for _, w := range want {
+		g, ok := idx[w.Key]
+		if !ok || g.Del != w.Del || (!w.Del && (!bytes.Equal(g.Val, w.Val) || g.UM != w.UM || g.Exp != w.Exp || g.Disc != w.Disc)) {
+			return fmt.Sprintf("key %q: set %s, committed %s", w.Key, descW(w), descW(g))
+		}
+	}
+	return ""
 }
 
 func tsOf(pc *pendingCommit) interface{} {
@@ -1086,7 +1125,7 @@ func executeWith(t *testing.T, c *Case, prof *Profile, keepHist bool, pre func(*
 		return
 	}
 	defer os.RemoveAll(dir)
-	r := &Run{c: c, prof: prof, dir: filepath.Join(dir, "d"), model: NewModel(), byGid: map[int64]*clientState{}, inFlight: map[uint64]bool{}, keepHist: keepHist, wms: map[string]*wmState{}}
+	r := &Run{c: c, prof: prof, dir: filepath.Join(dir, "d"), model: NewModel(), byGid: map[int64]*clientState{}, inFlight: map[uint64]bool{}, keepHist: keepHist, wms: map[string]*wmState{}, curRec: map[int64]*CommitRec{}}
 	r.vdir = r.dir
 	if c.Cfg.SeparateValueDir {
 		r.vdir = filepath.Join(dir, "v")
@@ -1159,6 +1198,7 @@ func (r *Run) bubble() {
 		return h, true
 	}
 	vhook.NowFn = func() (time.Time, bool) { return time.Now(), true }
+	vhook.EntryFn = r.onEntry
 	if r.disk != nil {
 		r.disk.Install()
 		e.OnIO = func(gid int64, kind, path string, off, n int64) { r.disk.OnIO(kind, path, off, n) }
